@@ -55,7 +55,7 @@ def required_counters(tier):
         "nested_unhooked_inside_hooked": 30,
         "nested_hooked_inside_unhooked": 10,
         "pyc_files_created": 200,
-        "runs_with_cache_present": 100, "runs_with_failing_hooked_import": 20, "runs_read_only_cache": 20, "in_process_reimport": 5, "in_process_edit_and_reimport": 5, "runs_with_checking_disabled": 15, "source_edits.same_mtime_other_size": 10,
+        "runs_with_cache_present": 100, "runs_with_failing_hooked_import": 20, "runs_read_only_cache": 20, "in_process_reimport": 5, "in_process_edit_and_reimport": 5, "runs_with_checking_disabled": 15, "source_edits.same_mtime_other_size": 10, "in_process_rehook_with_other_checker": 5, "histories.sources_older_than_the_library": 20,
     }
 
 
@@ -134,6 +134,12 @@ def gen_run(rng, mods):
         loaded = [o["module"] for o in ops if o["op"] == "import"]
         if loaded:
             m = rng.choice(loaded)
+            if rng.random() < 0.4:
+                # ... or a NEW hook (another typechecker, or none) is installed for it before it is imported again:
+                # the same file is compiled twice in one process under two hook configurations
+                first = next(o for o in ops if o["op"] == "install")
+                other = rng.choice([c for c in ("spychk.A", "spychk.B", None) if c != first["checker"]])
+                ops.append({"op": "install", "h": 2, "names": [m], "checker": other})
             ops.append({"op": "edit_reimport" if rng.random() < 0.5 else "reimport", "module": m})
     if rng.random() < 0.3:
         # an optional module that fails to compile, hooked or not, somewhere among the imports
@@ -163,6 +169,12 @@ def run_history(rec, rng, key):
     prev_status = {}
     try:
         write_forest(root, mods, versions)
+        if rng.random() < 0.5:
+            # sources that are OLDER than the installed library (a checkout restored with its timestamps, an
+            # archive, rsync -t): every later edit bumps the mtime by 2 s and so stays in the past as well
+            for m in mods:
+                os.utime(mod_path(root, mods, m), (1_000_000_000, 1_000_000_000))
+            rec.count("histories.sources_older_than_the_library")
         nruns = rng.randint(2, 5)
         rec.count("histories")
         for ri in range(nruns):
@@ -184,6 +196,8 @@ def run_history(rec, rng, key):
                     rec.count("in_process_edit_and_reimport")
                 elif o["op"] == "reimport":
                     rec.count("in_process_reimport")
+                if o["op"] == "install" and o["h"] == 2:
+                    rec.count("in_process_rehook_with_other_checker")
             if any(o["op"] == "import_failing" for o in ops):
                 rec.count("runs_with_failing_hooked_import")
             before = pycs(root)
